@@ -23,6 +23,12 @@ pub enum Case {
     /// rings[0] = shell, rest = holes (closed, simple, disjoint as generated), queries
     Rings { rings: Vec<Vec<P>>, queries: Vec<P> },
     Tri { tri: [P; 3], queries: Vec<P> },
+    /// four points on one line, at the extremes of the exponent range where the predicates stay exact:
+    /// `axis` Some(false) horizontal / Some(true) vertical with ARBITRARY finite doubles as positions `t`
+    /// (one of the two orientation products is an exact zero), or None: lattice direction `dir` from `base`
+    /// at integer positions `ti`, scaled by 2^k with k so small that every orientation product underflows to
+    /// exactly 0, or large
+    Collinear { axis: Option<bool>, t: [f64; 4], c: f64, base: (i64, i64), dir: (i64, i64), ti: [i64; 4], k: i32 },
 }
 
 pub struct C03;
@@ -112,6 +118,26 @@ fn triple_strategy() -> impl Strategy<Value = [P; 3]> {
     ]
 }
 
+fn collinear_strategy() -> impl Strategy<Value = Case> {
+    // any finite double, with ties: positions are drawn from a pool of three values and their neighbours
+    let fin = || any::<u64>().prop_map(|b| { let v = f64::from_bits(b); if v.is_finite() { v } else { f64::from_bits(b & !(0x7ffu64 << 52) | (0x3ffu64 << 52)) } });
+    prop_oneof![
+        (any::<bool>(), [fin(), fin(), fin()], [0usize..3, 0usize..3, 0usize..3, 0usize..3], [-1i32..2, -1i32..2, -1i32..2, -1i32..2], fin()).prop_map(|(v, pool, idx, nd, c)| {
+            let mut t = [0.0; 4];
+            for i in 0..4 {
+                let b = pool[idx[i]];
+                // neighbours by bit pattern (zero and the subnormals included: comparisons are exact everywhere)
+                let bits = b.to_bits() as i64 + nd[i] as i64;
+                let n = f64::from_bits(bits as u64);
+                t[i] = if n.is_finite() && (n == 0.0 || n.signum() == b.signum()) { n } else { b };
+            }
+            Case::Collinear { axis: Some(v), t, c, base: (0, 0), dir: (0, 0), ti: [0; 4], k: 0 }
+        }),
+        ((-256i64..256, -256i64..256), (-7i64..8, -7i64..8), [-30i64..31, -30i64..31, -30i64..31, -30i64..31], prop_oneof![-1070i32..-560, -60i32..480])
+            .prop_map(|(base, dir, ti, k)| Case::Collinear { axis: None, t: [0.0; 4], c: 0.0, base, dir, ti, k }),
+    ]
+}
+
 fn apply_ring(r: &[(i64, i64)], xf: &Xf) -> Vec<P> {
     r.iter().map(|c| { let q = xf.apply(*c); (q.x, q.y) }).collect()
 }
@@ -183,6 +209,7 @@ impl Property for C03 {
                 Case::Segs([t[0], t[1], t[2], (nudge(e.0, kx), nudge(e.1, ky))])
             }),
             4 => ring_case_strategy(),
+            1 => collinear_strategy(),
             2 => (triple_strategy(), proptest::collection::vec((0.0f64..1.0, 0.0f64..1.0, -2i32..3, -2i32..3), 1..12)).prop_map(|(tri, qs)| {
                 let queries = qs.iter().enumerate().map(|(i, (s, t, kx, ky))| {
                     // points on edges / vertices / inside, nudged
@@ -212,7 +239,7 @@ impl Property for C03 {
             .into()
     }
     fn must_hit() -> Vec<&'static str> {
-        vec!["naive-sign-wrong", "exact-collinear", "exact-on-boundary", "int-kernel", "sub:Triple", "sub:Segs", "sub:Rings", "sub:Tri"]
+        vec!["naive-sign-wrong", "exact-collinear", "exact-on-boundary", "int-kernel", "sub:Triple", "sub:Segs", "sub:Rings", "sub:Tri", "sub:Collinear", "collinear:all-products-underflow", "collinear:subnormal-position"]
     }
     fn check(c: &Case, obs: &mut Obs) {
         let co = |p: P| Coord { x: p.0, y: p.1 };
@@ -299,6 +326,69 @@ impl Property for C03 {
                 obs.expect(got2 == want, "Line::intersects(Line)|wrong-swapped", || format!("got {got2} exact {want}; {:?}", s));
                 let li = geo::algorithm::line_intersection::line_intersection(l1, l2).is_some();
                 obs.expect(li == want, "line_intersection.is_some()|wrong", || format!("got {li} exact {want}; {:?}", s));
+            }
+            Case::Collinear { axis, t, c: cc, base, dir, ti, k } => {
+                obs.label("sub:Collinear");
+                // positions along the line (exactly comparable) and the four points
+                let (pos, pts): (Vec<f64>, Vec<P>) = match axis {
+                    Some(vertical) => {
+                        if !t.iter().all(|v| v.is_finite()) || !cc.is_finite() {
+                            obs.label("skipped:out-of-domain");
+                            return;
+                        }
+                        obs.label(if *vertical { "collinear:vertical" } else { "collinear:horizontal" });
+                        if t.iter().any(|v| *v != 0.0 && v.abs() < f64::MIN_POSITIVE) {
+                            obs.label("collinear:subnormal-position");
+                        }
+                        (t.to_vec(), t.iter().map(|v| if *vertical { (*cc, *v) } else { (*v, *cc) }).collect())
+                    }
+                    None => {
+                        // 2^k as a double: exact for k >= -1074; every coordinate is an integer below 2^13 times it
+                        let in_dom = (-1070..-560).contains(k) || (-60..480).contains(k);
+                        if !in_dom || base.0.abs() > 256 || base.1.abs() > 256 || dir.0.abs() > 8 || dir.1.abs() > 8 || ti.iter().any(|v| v.abs() > 32) {
+                            obs.label("skipped:out-of-domain");
+                            return;
+                        }
+                        obs.label(if *k < -500 { "collinear:all-products-underflow" } else { "collinear:lattice-large" });
+                        let sc = |m: i64| if *k >= -1000 { m as f64 * 2f64.powi(*k) } else { (m as f64 * 2f64.powi(-1000)) * 2f64.powi(*k + 1000) };
+                        let pts: Vec<P> = ti.iter().map(|q| (sc(base.0 + q * dir.0), sc(base.1 + q * dir.1))).collect();
+                        // a position that is monotone along the line: the parameter itself (or all equal when dir = 0)
+                        let pos: Vec<f64> = ti.iter().map(|q| if *dir == (0, 0) { 0.0 } else { *q as f64 }).collect();
+                        (pos, pts)
+                    }
+                };
+                obs.nontrivial();
+                obs.label("exact-collinear");
+                let (lo, hi) = (pos[0].min(pos[1]), pos[0].max(pos[1]));
+                let on = pos[2] >= lo && pos[2] <= hi;
+                let (a, b, p, q) = (pts[0], pts[1], pts[2], pts[3]);
+                let ctx = || format!("{:?} bits {:?}", pts, pts.iter().map(|p| (p.0.to_bits(), p.1.to_bits())).collect::<Vec<_>>());
+                let got_o = <f64 as GeoNum>::Ker::orient2d(co(a), co(b), co(p));
+                obs.expect(got_o == Orientation::Collinear, "orient2d:f64|collinear-extreme-scale", || format!("got {:?}; {}", got_o, ctx()));
+                let l = Line::new(co(a), co(b));
+                let g1 = l.intersects(&co(p));
+                obs.expect(g1 == on, "Line::intersects(Coord)|wrong", || format!("got {g1} exact {on}; {}", ctx()));
+                let g2 = co(p).intersects(&l);
+                obs.expect(g2 == on, "Coord::intersects(Line)|wrong", || format!("got {g2} exact {on}; {}", ctx()));
+                let g3 = l.contains(&co(p));
+                let want_c = (on && p != a && p != b) || (a == b && p == a);
+                obs.expect(g3 == want_c, "Line::contains(Coord)|wrong", || format!("got {g3} exact {want_c}; {}", ctx()));
+                // two collinear segments meet iff their parameter intervals overlap
+                let (lo2, hi2) = (pos[2].min(pos[3]), pos[2].max(pos[3]));
+                let meet = lo.max(lo2) <= hi.min(hi2);
+                let l2 = Line::new(co(p), co(q));
+                let g4 = l.intersects(&l2);
+                obs.expect(g4 == meet, "Line::intersects(Line)|wrong", || format!("got {g4} exact {meet}; {}", ctx()));
+                let g5 = l2.intersects(&l);
+                obs.expect(g5 == meet, "Line::intersects(Line)|wrong-swapped", || format!("got {g5} exact {meet}; {}", ctx()));
+                let li = geo::algorithm::line_intersection::line_intersection(l, l2).is_some();
+                obs.expect(li == meet, "line_intersection.is_some()|wrong", || format!("got {li} exact {meet}; {}", ctx()));
+                // a horizontal ring edge: the point is on the boundary of the flat closed ring a-b-a iff on the segment
+                if a != b {
+                    let ring = LineString::new(vec![co(a), co(b), co(a)]);
+                    let gp = coord_pos_relative_to_ring(co(p), &ring);
+                    obs.expect((gp == CoordPos::OnBoundary) == on && gp != CoordPos::Inside, "coord_pos_relative_to_ring|flat-ring", || format!("got {:?}, on the segment = {on}; {}", gp, ctx()));
+                }
             }
             Case::Rings { rings, queries } => {
                 obs.label("sub:Rings");
